@@ -56,6 +56,13 @@ pub fn pool(seed: u64, msg_in: Option<&str>, msg_out: Option<&str>, out: &mut Ve
     roots.push(root_of(&r));
     let _ = r.atomic_operation(0, Cursor::new(enc_vec_fr(&[])), Cursor::new(enc_vec_u8(&[3, 4, 5, 6])));
     roots.push(root_of(&r));
+    // many batches with equal / default sibling pairs (the parallel recomputation hashes the same pair from several workers)
+    for k in 0..40usize {
+        let v = if k % 3 == 0 { Fr::from(0u64) } else { l1[k % 7] };
+        let same: Vec<Fr> = vec![v; 32 + (k % 5) * 16];
+        let _ = r.set_leaves_from(2000 + 128 * k, Cursor::new(enc_vec_fr(&same)));
+        roots.push(root_of(&r));
+    }
     // a member, its witness and proof values (data-parallel witness map / QAP reduction come with the proof)
     let s = rnd_fr(&mut rg);
     let lim = Fr::from(100u64);
@@ -250,4 +257,48 @@ pub fn reopen(dir: &str, n: usize, out: &mut Vec<Value>) {
             Err(m) => out.push(json!({"t": "reopen", "n": k, "res": "panic", "ms": ms, "msg": m})),
         }
     }
+    // hand-over cycles on their own location: another thread drops the instance (the drop writes the unflushed
+    // batch out, which takes a moment) while this thread re-creates it as soon as the drop has been announced.
+    // Only success within the bound is required here; what the new instance contains while the old one may
+    // still be alive is recorded (kept) but not judged.
+    let path = format!("{dir}/handover-db");
+    let _ = std::fs::remove_dir_all(&path);
+    let cfg = json!({"path": path, "temporary": false, "cache_capacity": 100000000u64, "flush_every_ms": 60000});
+    let mut cur = catch(AssertUnwindSafe(|| new_rln(14, &cfg))).ok().and_then(|r| r.ok());
+    for k in 0..n {
+        let Some(mut r) = cur.take() else {
+            out.push(json!({"t": "handover", "n": k, "res": "err", "ms": 0, "kept": false, "msg": "no instance to hand over"}));
+            cur = catch(AssertUnwindSafe(|| new_rln(14, &cfg))).ok().and_then(|r| r.ok());
+            continue;
+        };
+        let leaves: Vec<Fr> = (0..6000u64).map(|j| Fr::from(j + k as u64 + 1)).collect();
+        let _ = r.set_leaves_from(0, Cursor::new(enc_vec_fr(&leaves)));
+        let before = r.leaves_set();
+        let (tx, rx) = std::sync::mpsc::channel::<()>();
+        let h = std::thread::spawn(move || {
+            let _ = tx.send(());
+            drop(r);
+        });
+        let _ = rx.recv();
+        let t1 = Instant::now();
+        let r2 = catch(AssertUnwindSafe(|| new_rln(14, &cfg)));
+        let ms = t1.elapsed().as_millis() as u64;
+        let _ = h.join();
+        match r2 {
+            Ok(Ok(mut r2)) => {
+                out.push(json!({"t": "handover", "n": k, "res": "ok", "ms": ms, "kept": r2.leaves_set() == before}));
+                cur = Some(r2);
+            }
+            Ok(Err(e)) => {
+                out.push(json!({"t": "handover", "n": k, "res": "err", "ms": ms, "kept": false, "msg": e.to_string().chars().take(200).collect::<String>()}));
+                cur = catch(AssertUnwindSafe(|| new_rln(14, &cfg))).ok().and_then(|r| r.ok());
+            }
+            Err(m) => {
+                out.push(json!({"t": "handover", "n": k, "res": "panic", "ms": ms, "kept": false, "msg": m}));
+                cur = catch(AssertUnwindSafe(|| new_rln(14, &cfg))).ok().and_then(|r| r.ok());
+            }
+        }
+    }
+    drop(cur);
+    let _ = std::fs::remove_dir_all(&path);
 }
